@@ -39,6 +39,21 @@ Definition py_suffix (name : str) : str :=
 Definition py_stem (name : str) : str :=
   match rsplit_dot name with Some (a, b) => if dot_ok a b then a else name | None => name end.
 
+(* ---- list_templates() of the bundled loaders: FileSystemLoader returns sorted(set(names of all search paths)), PackageLoader
+   sorts its names; Python compares str by code points, lexicographically ------------------------------------------------ *)
+Fixpoint str_leb (a b : str) : bool :=
+  match a, b with
+  | [], _ => true
+  | _ :: _, [] => false
+  | x :: a', y :: b' => if x <? y then true else if x =? y then str_leb a' b' else false
+  end.
+Fixpoint insert_sorted (x : str) (l : list str) : list str :=
+  match l with [] => [x] | y :: l' => if str_leb x y then x :: l else y :: insert_sorted x l' end.
+Definition sort_str (l : list str) : list str := fold_right insert_sorted [] l.
+Fixpoint dedup (l : list str) : list str :=
+  match l with [] => [] | x :: l' => if str_in x l' then dedup l' else x :: dedup l' end.
+Definition list_templates (raw : list path) : list path := sort_str (dedup raw).
+
 (* ---- dict(map(lambda x: (Path(x).stem, Path(x)), listing)): later entries replace earlier ones ---------------- *)
 Fixpoint aget {A : Type} (l : list (str * A)) (n : str) : option A :=
   match l with
@@ -124,6 +139,23 @@ Section Loader.
     | None => match pkg with Some T => nearest T ch | None => None end
     end.
 
+  (* the property's other reading: the nearest class of the chain with a template in ANY of the two sets (user wins on a tie) *)
+  Fixpoint nearest_any (Tf Tp : cls -> option path) (l : list cls) : option path :=
+    match l with
+    | [] => None
+    | c :: l' => match Tf c with Some p => Some p | None => match Tp c with Some p => Some p | None => nearest_any Tf Tp l' end end
+    end.
+  (* false iff a built-in template of a nearer class is passed over for a user template of a more general class *)
+  Fixpoint shadow_freeb (Tf Tp : cls -> option path) (l : list cls) : bool :=
+    match l with
+    | [] => true
+    | c :: l' => match Tf c, Tp c with
+                 | Some _, _ => true
+                 | None, Some _ => match nearest Tf l' with None => true | Some _ => false end
+                 | None, None => shadow_freeb Tf Tp l'
+                 end
+    end.
+
   (* ---- instance tests ------------------------------------------------------------------------------------ *)
   Definition isinst (fuel : nat) (c root : cls) : bool := memN root (chain_n fuel c).
   Record value := { v_cls : cls; v_dt : cls }.       (* class of the object; class of its .data_type (attributes only) *)
@@ -138,21 +170,27 @@ Section Loader.
 End Loader.
 
 (* ---- DSDLTemplateLoader.__init__: which loaders exist ------------------------------------------------------- *)
-Definition mk_loaders {A : Type} (pol : policy) (dirs pkg : option A) : option A * option A :=
+Definition mk_loaders {A B : Type} (pol : policy) (dirs : option A) (pkg : option B) : option A * option B :=
   (dirs,
    match pkg with
    | Some t => match pol, dirs with FIND_ALL, _ => Some t | FIND_FIRST, None => Some t | FIND_FIRST, Some _ => None end
    | None => None
    end).
 
-(* ---- get_source: file-system loader first, package loader as fallback ------------------------------------------- *)
-Definition has_file (l : list path) (name : path) : bool := existsb (fun e => str_eqb e name) l.     (* raw listing *)
-Definition get_source (fs pkg : option (list path)) (name : path) : option source :=
+(* ---- get_source: FileSystemLoader (search paths in order), then PackageLoader as fallback -------------------------------- *)
+Inductive origin := OUserDir (i : nat) | OPkg.
+Definition has_file (l : list path) (name : path) : bool := existsb (fun e => str_eqb e name) l.     (* raw listing of one root *)
+Fixpoint first_root (rs : list (list path)) (name : path) (i : nat) : option nat :=
+  match rs with [] => None | r :: rs' => if has_file r name then Some i else first_root rs' name (S i) end.
+Definition pkg_source (pkg : option (list path)) (name : path) : option origin :=
+  match pkg with Some p => if has_file p name then Some OPkg else None | None => None end.
+Definition get_source (fs : option (list (list path))) (pkg : option (list path)) (name : path) : option origin :=
   match fs with
-  | Some l => if has_file l name then Some SrcFs
-              else match pkg with Some p => if has_file p name then Some SrcPkg else None | None => None end
-  | None => match pkg with Some p => if has_file p name then Some SrcPkg else None | None => None end
+  | Some rs => match first_root rs name 0 with Some i => Some (OUserDir i) | None => pkg_source pkg name end
+  | None => pkg_source pkg name
   end.
+(* what the file-system loader enumerates: the names of all search paths together *)
+Definition fs_raw (rs : list (list path)) : list path := concat rs.
 
 (* listing of a loader -> the index built by type_to_template:
      filtered = [f for f in listing if Path(f).suffix == TEMPLATE_SUFFIX];  dict(map(lambda x: (Path(x).stem, Path(x)), filtered)) *)
